@@ -19,6 +19,7 @@ or every bridge module builds).  Expected: rewrites accepted; for seeded patches
 
 usage: tools/translator_regress.py --out tools/translator_regress_after.json [--only NAME[,NAME..]]
                                    [--compare tools/translator_regress_before.json] [--keep] [--no-build]
+                                   [--from TABLE.json]  (no run: compare / summarise an existing table)
                                    [--extra DIR]   (also DIR/<name>/patch.diff, tabulated as kind `mutation`:
                                                     exit 1 if one of them is accepted)
 scratch: /tmp/deeptrans_repo (worktree of /repo), /tmp/deeptrans_lean (copy of lean/), /tmp/deeptrans_gen
@@ -232,12 +233,18 @@ def verdict(r):
 
 
 def main():
-    setup()
-    reads = reads_of_targets()
-    users = users_of_generated()
     only = set(arg('--only', '').split(',')) - {''}
     table = {}
-    for kind, name, patch in patches():
+    if arg('--from'):
+        # only re-do the comparison / summary of a table produced earlier
+        with open(arg('--from')) as f:
+            table = json.load(f)['table']
+        reads = users = None
+    else:
+        setup()
+        reads = reads_of_targets()
+        users = users_of_generated()
+    for kind, name, patch in ([] if arg('--from') else patches()):
         if only and name not in only:
             continue
         files = touched(patch)
@@ -250,7 +257,7 @@ def main():
                             '; '.join('%s: %s' % (t, verdict(r)) for t, r in sorted(res['targets'].items()))
                             or res.get('error')), flush=True)
     out = arg('--out')
-    if out:
+    if out and not arg('--from'):
         with open(out, 'w') as f:
             json.dump({'reads': {k: sorted(v) for k, v in reads.items()}, 'users': users, 'table': table}, f,
                       indent=1, sort_keys=True)
@@ -275,6 +282,9 @@ def main():
         for key in sorted(table):
             for t, r in sorted(table[key]['targets'].items()):
                 b = before.get(key, {}).get('targets', {}).get(t)
+                if b is None and key in before:
+                    # the plugin did not read any file the patch touches at that time: same text as HEAD
+                    b = {'translates': True, 'error': None, 'identical': True, 'bridges': None}
                 was = accepted(b) if b else None
                 now = accepted(r)
                 if was == now:
